@@ -482,7 +482,10 @@ def rule_r4(rep, idxs):
                 if d['kind'] == 'CXXMemberCallExpr':
                     kind, name, did, obj = callee_of(d)
                     if name == 'open' and obj is not None and any(t in dqt_all(obj) for t in OUT_STREAM_TYPES):
-                        opens = True
+                        # an fstream opened with exactly the input mode (std::fstream::in, possibly | binary) is not an output file
+                        a_ = cast.call_args(d)
+                        flags = {(x.get('referencedDecl') or {}).get('name') for x in walk(a_[1]) if x.get('kind') == 'DeclRefExpr'} if len(a_) > 1 else set()
+                        opens = not (flags and flags <= {'in', 'binary'})
                 if opens:
                     key = f.qname
                     if (key, pos(d)) in seen:
